@@ -7,8 +7,9 @@ import re
 
 
 class CFG:
-    def __init__(self, body):
+    def __init__(self, body, diverging_as_exits=False):
         self.body = body
+        self.diverging_as_exits = diverging_as_exits
         self.succ = {}
         self.pred = {}
         for bid, blk in body.blocks.items():
@@ -24,6 +25,9 @@ class CFG:
                     self.pred[s].append(bid)
         self.entry = 0
         self.exits = [bid for bid in self.succ if body.blocks[bid].term.kind == 'return']
+        if diverging_as_exits:
+            # a block without normal successors (panic!, unreachable, abort) ends the path too: a branch into it is a decision
+            self.exits += [bid for bid in self.succ if not self.succ[bid] and body.blocks[bid].term.kind != 'return']
         self._dom = None
         self._pdom = None
 
